@@ -8,6 +8,9 @@ namespace occa {
     class identifierToken : public token_t {
     public:
       std::string value;
+      // Set to false by the preprocessor when the identifier named a macro
+      //   that was being expanded: it is never expanded afterwards
+      bool canExpand;
 
       identifierToken(const fileOrigin &origin_,
                       const std::string &value_);
